@@ -335,8 +335,9 @@ func firstDiff(a, b string) string {
 // diagnosis of a rejected sub-query against what the receiving service
 // supports in all of its versions (the reference model's per-service schema).
 type diagnosis struct {
-	superset []string // uses something only OTHER services support (union of inputs across services)
-	other    []string // anything else (the service itself does not fully support what it was sent)
+	superset    []string // uses something only OTHER services support (union of inputs across services)
+	unfederated []string // needs a hop away from an object that no service federates
+	other       []string // anything else (the service itself does not fully support what it was sent)
 }
 
 func diagnoseValue(per, merged *schemaDef, where string, val interface{}, t *tref, d *diagnosis) {
@@ -412,6 +413,10 @@ func diagnose(per, merged *schemaDef, typeName string, ss *graphql.SelectionSet,
 			}
 		}
 		f := t.field(name)
+		if f == nil && name == "_federation" && merged.Types[typeName] != nil && merged.Types[typeName].field("_federation") == nil {
+			d.unfederated = append(d.unfederated, fmt.Sprintf("object %s is not federated on any service, yet the plan hops away from it", typeName))
+			continue
+		}
 		if f == nil {
 			d.other = append(d.other, fmt.Sprintf("field %s.%s not supported by every version of the receiving service", typeName, s.Name))
 			continue
@@ -441,17 +446,19 @@ func diagnose(per, merged *schemaDef, typeName string, ss *graphql.SelectionSet,
 
 // Classifier keys (stable; see FINDINGS.md).
 const (
-	classOrder    = "order-dependent-merge"
-	classSuperset = "union-input-superset"
+	classOrder       = "order-dependent-merge"
+	classSuperset    = "union-input-superset"
+	classUnfederated = "unfederated-object-split"
 )
 
 // viol counts a violation by oracle and class before recording it.
 func viol(run *vlib.Run, i int, tag, class string, w map[string]interface{}) {
+	gen, _ := w["generator"].(string)
 	c := class
 	if c == "" {
 		c = "unclassified"
 	}
-	run.Count("violation:"+tag+":"+c, 1)
+	run.Count("violation:"+tag+":"+c+":gen"+gen, 1)
 	w["oracle"] = tag
 	run.Violation(i, class, w)
 }
@@ -467,7 +474,7 @@ func rejectKind(s string) string {
 
 func errKind(err error) string {
 	s := err.Error()
-	for _, k := range []string{"only support 1 mutation", "not an object", "missing _federation", "does not have key", "key already exists", "results for", "root object not found", "root did not have", "executor res not"} {
+	for _, k := range []string{"only support 1 mutation", "not an object", "missing _federation", "does not have key", "key already exists", "results for", "root object not found", "root did not have", "executor res not", "key field is an incorrect type"} {
 		if strings.Contains(s, k) {
 			return k
 		}
@@ -512,6 +519,13 @@ func runCase(run *vlib.Run, i int, nQueries int) {
 	rn := run.Rand("naming", i)
 	base := randomNaming(rn, counts)
 	namings := []naming{base, reversedNaming(base), randomNaming(rn, counts), randomNaming(rn, counts)}
+	if set.kind() == "B" {
+		// schemabuilder lower-cases the service name it puts into Federation field names
+		for k := range namings {
+			namings[k] = lowerNaming(namings[k])
+		}
+		base = namings[0]
+	}
 
 	wit := func(extra map[string]interface{}) map[string]interface{} {
 		w := map[string]interface{}{"generator": set.kind(), "naming": base.String(), "schemas": describeSet(set, base)}
@@ -614,11 +628,15 @@ func runCase(run *vlib.Run, i int, nQueries int) {
 
 	if b.mergeOK {
 		run.Count("merge:ok", 1)
+		run.Count("merge:ok:gen"+set.kind(), 1)
 	} else {
 		run.Count("merge:rejected", 1)
 		run.Count("merge:rejected:"+rejectKind(b.mergeErr), 1)
 		if len(model.Problems) == 0 {
 			run.Count("merge:rejected_without_model_problem", 1)
+			if os.Getenv("C09_DEBUG") != "" {
+				fmt.Printf("DEBUG rejected without model problem case %d: %s (all namings fail: %v)\n", i, b.mergeErr, !anyOK)
+			}
 		}
 	}
 	for k, v := range model.Diffs {
@@ -859,24 +877,36 @@ func endToEnd(run *vlib.Run, i int, set schemaSet, base naming, b *outcome, merg
 				mergedTok := mergedDef.clone()
 				mergedTok.renameFed(base.tokens())
 				diagnose(model.PerService[s], mergedTok, rootName, sq.Sel, base.tokens(), d)
-				cls := ""
-				if len(d.other) == 0 && len(d.superset) > 0 {
-					cls = classSuperset
+				// one violation per recognised cause; anything unrecognised stays unclassified
+				var classes []string
+				if len(d.other) == 0 {
+					if len(d.superset) > 0 {
+						classes = append(classes, classSuperset)
+					}
+					if len(d.unfederated) > 0 {
+						classes = append(classes, classUnfederated)
+					}
 				}
-				if cls == "" && os.Getenv("C09_DEBUG") != "" {
-					fmt.Printf("DEBUG unclassified case %d q %d: %v | %v | %v\n", i, qi, perr, d.other, d.superset)
+				if len(classes) == 0 {
+					classes = []string{""}
+					if os.Getenv("C09_DEBUG") != "" {
+						fmt.Printf("DEBUG unclassified case %d q %d: %v | %v | %v\n", i, qi, perr, d.other, d.superset)
+					}
 				}
-				viol(run, i, "subquery_rejected", cls, wit(map[string]interface{}{
-					"what":             "a query valid against the merged schema produced a sub-query that a version of the receiving service rejects",
-					"query":            text,
-					"query_index":      qi,
-					"service":          sq.Service,
-					"version":          base.ver[s][v],
-					"sub_query":        sq.Kind + " " + selText(sq.Sel),
-					"prepare_error":    perr.Error(),
-					"diagnosis":        map[string]interface{}{"only_other_services_support": d.superset, "other": d.other},
-					"service_supports": strings.Split(strings.TrimSpace(model.PerService[s].canonical(nil)), "\n"),
-				}))
+				for _, cls := range classes {
+					viol(run, i, "subquery_rejected", cls, wit(map[string]interface{}{
+						"what":          "a query valid against the merged schema produced a sub-query that a version of the receiving service rejects",
+						"query":         text,
+						"query_index":   qi,
+						"service":       sq.Service,
+						"version":       base.ver[s][v],
+						"sub_query":     sq.Kind + " " + selText(sq.Sel),
+						"prepare_error": perr.Error(),
+						"diagnosis": map[string]interface{}{
+							"only_other_services_support": d.superset, "hop_from_unfederated_object": d.unfederated, "other": d.other},
+						"service_supports": strings.Split(strings.TrimSpace(model.PerService[s].canonical(nil)), "\n"),
+					}))
+				}
 			}
 		}
 	}
